@@ -43,7 +43,7 @@ m = {
     "engines": [{"name": "gowp", "path": "/verif/engine", "serves_properties": sorted(claimed),
                  "kind_free_text": "weakest-precondition / symbolic-execution VC generator over go/ssa (NaiveForm) of the current /repo tree; contracts are //@ comments in guarded files in /repo; obligations discharged by z3 4.8.12 / z3 5.1.0 / cvc5 1.0.3"}],
     "checks": checks,
-    "notes": "Every check rebuilds the SSA of /repo's working tree, regenerates all obligations and discharges them; a VIOLATION names the failed obligation. See DESIGN.md.",
+    "notes": "Every check rebuilds the SSA of /repo's working tree, regenerates all obligations and discharges them; a VIOLATION names the failed obligation. DEGRADED (exit status unchanged) means a function of the cone no longer matches its contract and nothing is counted as proved for it; the bounded stand-ins then decide. Open known findings (/verif/known_findings.txt, DESIGN.md section 8) print KNOWN-FINDING lines and do not fail a check. See DESIGN.md section 0 for what was built and measured.",
     "not_applicable": na,
 }
 json.dump(m, open(os.path.join(vd, 'MANIFEST.json'), 'w'), indent=1)
